@@ -2,6 +2,8 @@
 
 from __future__ import annotations
 
+from typing import Any
+
 import ast
 
 from ..pm import AnalysisError, unparse
@@ -246,66 +248,74 @@ def result_kind(t: Term) -> str:
 
 
 def w3_variables(check: Check) -> None:
+    """W3 [E]: `Function.membership(x)` interpreted abstractly (sa/absexec.py) for a term with no engine / an engine with variables
+    {a, b} / an engine that has a variable named x, and own variables {} / {k} / {x} / {a}: the formula is evaluated in the
+    environment {engine variable -> its current value} + {x -> the argument} + {own variables}, whose value is returned; a function
+    variable named x, an engine variable named x and a name shared by function and engine variables are rejected with ValueError
+    before anything is evaluated."""
+    from ..absexec import AbsExec, Internal, MObj, Opaque, Raised, Unknown, _Return
+
     p = check.program
     fn = p.func("Function.membership")
     check.analysed(fn)
-    r = Resolver(p, fn)
-    cfg = r.cfg
-    x = fn.params[1].name
-    evals = [(n, c) for n, c in cfg.find_calls(".evaluate") if r.term(c.func.value, n) == ("param", "self")]  # type: ignore[union-attr]
-    if len(evals) != 1 or not evals[0][1].args or not isinstance(evals[0][1].args[0], ast.Name):
-        raise AnalysisError("Function.membership: the evaluate(<variables>) call is not recognised")
-    en, ec = evals[0]
-    dname = ec.args[0].id
-    guards = [(r.term(g, gn), pol, gn) for g, pol, gn in cfg.must_guards(en)]
+    node = fn.analysis_node
+    xname = fn.params[1].name
+    bad: dict[str, str] = {}
+    cases = 0
+    try:
+        for eng_names in (None, ("a", "b"), ("a", "x")):
+            for own in ({}, {"k": "own-k"}, {"x": "own-x"}, {"a": "own-a"}):
+                cases += 1
+                seen: dict[str, Any] = {}
+                engine = None
+                if eng_names is not None:
+                    vs = [MObj("InputVariable", {"name": n_, "value": f"value-of-{n_}", "__len__": 1}) for n_ in eng_names]
+                    engine = MObj("Engine", {"variables": vs, "input_variables": vs[:1], "output_variables": vs[1:], "__bool__": True})
 
-    def has_guard(pred) -> bool:
-        return any((not pol) and pred(t) for t, pol, _ in guards)
+                def evaluate(ex_, e, recv, args, kw, seen=seen):
+                    env_ = args[0] if args else kw.get("variables")
+                    seen["env"] = dict(env_) if isinstance(env_, dict) else env_
+                    seen["calls"] = seen.get("calls", 0) + 1
+                    return "formula-value"
 
-    own_x = has_guard(lambda t: t[0] == "cmp" and t[1] == ("in",) and t[2][0] == ("const", "x") and path_of(t[2][1]) == "self.variables")
-    check.require(own_x, "W3", "Function.membership/own-x", "a function variable named x is rejected before evaluation", loc(fn, en))
-    # the engine-variable clash test sits on every path from the collection of engine values to the evaluation
-    eng_tests = [n for n in cfg.stmt_nodes() if n.kind == "test" and (lambda t: t[0] == "cmp" and t[1] == ("in",) and t[2][0] == ("const", "x")
-                 and path_of(t[2][1]) != "self.variables")(r.term(n.ast, n)) and
-                 any(isinstance(s.ast, ast.Raise) for s, l in n.succ if l == "true")]
-    collect = [n for n in cfg.stmt_nodes() for t in cfg.stores_at(n) if isinstance(t, ast.Subscript) and isinstance(t.value, ast.Name)
-               and t.value.id == dname and r.term(t.slice, n)[0] == "attr"]
-
-    def engine_dictcomp(n) -> bool:
-        """`{v.name: v.value for v in self.engine.variables}` assigned to the environment."""
-        a_ = n.ast
-        if not (isinstance(a_, (ast.Assign, ast.AnnAssign)) and a_.value is not None):
-            return False
-        tg = a_.targets if isinstance(a_, ast.Assign) else [a_.target]
-        if not any(isinstance(t_, ast.Name) and t_.id == dname for t_ in tg):
-            return False
-        for x in ast.walk(a_.value):
-            if isinstance(x, ast.DictComp) and len(x.generators) == 1 and not x.generators[0].ifs and isinstance(x.generators[0].target, ast.Name):
-                v = x.generators[0].target.id
-                if isinstance(x.key, ast.Attribute) and x.key.attr == "name" and unparse(x.key.value) == v and isinstance(x.value, ast.Attribute) and \
-                        x.value.attr == "value" and unparse(x.value.value) == v and path_of(r.term(x.generators[0].iter, n)) == "self.engine.variables":
-                    return True
-        return False
-
-    comp_sites = [n for n in cfg.stmt_nodes() if engine_dictcomp(n)]
-    collect += comp_sites
-    eng_x = bool(eng_tests) and bool(collect) and all(en not in cfg.reach([s for s, _ in c_.succ], blocked=set(eng_tests)) for c_ in collect)
-    check.require(eng_x, "W3", "Function.membership/engine-x", "an engine variable named x is rejected before evaluation", loc(fn, en))
-    over = has_guard(lambda t: any(s[0] == "binop" and s[1] == "&" for s in walk(t)) or (t[0] == "binop" and t[1] == "&"))
-    check.require(over, "W3", "Function.membership/overrides", "a clash between function variables and engine variables is rejected before evaluation", loc(fn, en))
-    # contents of the environment
-    stores = [(n, t) for n in cfg.stmt_nodes() for t in cfg.stores_at(n) if isinstance(t, ast.Subscript) and isinstance(t.value, ast.Name) and t.value.id == dname]
-    eng = any(r.term(t.slice, n)[0] == "attr" and r.term(t.slice, n)[2] == "name" and r.term(n.ast.value, n)[0] == "attr" and  # type: ignore[union-attr]
-              r.term(n.ast.value, n)[2] == "value" and r.term(t.slice, n)[1] == r.term(n.ast.value, n)[1] and  # type: ignore[union-attr]
-              cfg.must_precede([n], en) or cfg.enclosing_loops(n) for n, t in stores if r.term(t.slice, n)[0] == "attr")
-    xs = any(r.term(t.slice, n) == ("const", "x") and r.term(n.ast.value, n) == ("param", x) and cfg.must_precede([n], en) for n, t in stores)  # type: ignore[union-attr]
-    upd = any(isinstance(c.func, ast.Attribute) and c.func.attr == "update" and isinstance(c.func.value, ast.Name) and c.func.value.id == dname
-              and c.args and path_of(r.term(c.args[0], n)) == "self.variables" and cfg.must_precede([n], en) for n, c in cfg.all_calls())
-    eng = bool(eng) or bool(comp_sites)
-    check.require(bool(eng) and xs and upd, "W3", "Function.membership/environment",
-                  "formulas see every engine variable's current value, x, and the term's own variables" if eng and xs and upd else
-                  f"environment: engine variables={bool(eng)}, x={xs}, own variables={upd}", loc(fn, en))
-    t = r.term(ec, en)
-    rets = [(n, r.term(n.ast.value, n)) for n in cfg.stmt_nodes() if isinstance(n.ast, ast.Return) and n.ast.value is not None]
-    check.require(bool(rets) and all(rt == t for _, rt in rets), "W3", "Function.membership/result",
-                  "the membership value is the value of the formula in that environment", loc(fn, en))
+                selfobj = MObj("Function", {"variables": dict(own), "engine": engine, "root": Opaque("root"), "name": Opaque("name"), "formula": Opaque("formula")})
+                hooks = {"method:evaluate": evaluate, "method:variable": lambda ex_, e, recv, args, kw: Opaque("variable")}
+                ex = AbsExec(fn.qualname, hooks, helpers={k: v for k, v in fn.cls.methods.items() if k.startswith("_") and not k.startswith("__")})
+                env = {"self": selfobj, xname: "the-argument"}
+                try:
+                    ex.block(list(node.body), env)
+                    got: Any = ("return", None)
+                except _Return as r_:
+                    got = ("return", r_.value)
+                except Raised as r_:
+                    got = ("raise", r_.cls)
+                except Internal as i_:
+                    got = ("internal", f"{i_.cls}: {i_.why}")
+                what = f"engine variables {list(eng_names) if eng_names else 'none (no engine)'}, own variables {sorted(own)}"
+                clash = "x" in own or (eng_names is not None and "x" in eng_names) or (eng_names is not None and set(own) & set(eng_names))
+                if got[0] == "internal":
+                    bad.setdefault("internal", f"{what}: internal error {got[1]}")
+                elif clash:
+                    kind = "own-x" if "x" in own else ("engine-x" if eng_names and "x" in eng_names else "overrides")
+                    if got != ("raise", "ValueError") or seen.get("calls"):
+                        bad.setdefault(kind, f"{what}: must be rejected with ValueError before the formula is evaluated, " +
+                                       (f"but {'the formula is evaluated and ' if seen.get('calls') else ''}{'raises ' + got[1] if got[0] == 'raise' else 'a value is returned'}"))
+                else:
+                    want_env = {**({n_: f"value-of-{n_}" for n_ in eng_names} if eng_names else {}), "x": "the-argument", **own}
+                    if got[0] != "return" or seen.get("calls") != 1:
+                        bad.setdefault("result", f"{what}: the formula must be evaluated once and its value returned ({got})")
+                    else:
+                        if seen.get("env") != want_env:
+                            bad.setdefault("environment", f"{what}: the formula sees {seen.get('env')}, specified {want_env}")
+                        if got[1] != "formula-value":
+                            bad.setdefault("result", f"{what}: returns {got[1]!r}, not the value of the formula")
+    except Unknown as u:
+        raise AnalysisError(str(u)) from None
+    for construct, kinds, text in (
+            ("own-x", ["own-x"], "a function variable named x is rejected before evaluation"),
+            ("engine-x", ["engine-x"], "an engine variable named x is rejected before evaluation"),
+            ("overrides", ["overrides"], "a clash between function variables and engine variables is rejected before evaluation"),
+            ("environment", ["environment", "internal"], "formulas see every engine variable's current value, x, and the term's own variables"),
+            ("result", ["result"], "the membership value is the value of the formula in that environment")):
+        hits = [bad[k] for k in kinds if k in bad]
+        check.require(not hits, "W3", f"Function.membership/{construct}", text if not hits else hits[0], loc(fn), {"cases": cases}, exhaustive=True, cases=cases)
